@@ -257,6 +257,25 @@ def replay_path(args):
                 r1 = fresh.op("grp", closed)
                 if r1[0] != "stop":
                     bad("C16", "stale-group-yields+after-closing-it", len(path), {"expected": ["stop", 0, 0], "observed": r1})
+    if not out and "C16" in props and any(o == "gb" for o, _ in history_of(path)):
+        # A group stays what it is when the groupby object it came from is dropped (a temporary expression, `del`): an
+        # itertools group keeps its parent alive and yields the rest of its run.
+        import gc  # noqa: PLC0415
+        fresh, twin2 = GBSys(data, keyfl), GBSys(data, keyfl, sync=True)
+        for op, g, *_ in (e["a"] for e in path):
+            fresh.op(op, g)
+            twin2.op(op, g)
+        if fresh.groups and len(fresh.groups) == len(twin2.groups):
+            fresh.gb = twin2.gb = None
+            gc.collect()
+            newest = len(fresh.groups)
+            for _ in range(len(data) + 2):
+                r1, r2 = fresh.op("grp", newest), twin2.op("grp", newest)
+                if r1 != r2:
+                    bad("C16", f"{r1[0]}-instead-of-{r2[0]}+after-dropping-the-groupby-object", len(path), {"expected": r2, "observed": r1})
+                    break
+                if r1[0] != "item":
+                    break
     if not out and "C04" in props:
         # on a fresh replay of the same history (the drain above has used the first one up): closed where it stands
         for noclose in (False, True):
